@@ -316,6 +316,8 @@ def run_shard(desc):
     def body(rnd, st_):
         g = gen_case(rnd)
         cls = xmlschema.XMLSchema11 if rnd.random() < .3 else xmlschema.XMLSchema10
+        if cls is xmlschema.XMLSchema11:
+            dg.mark_inheritable(g, rnd)
         xsd = g.xsd()
         try:
             s = cls(xsd)
